@@ -78,6 +78,9 @@ def generate(prop, seed, tier):
         elif op in ("cond_sample", "cond_cdf", "cond_icdf"):
             dim = S.wpick([(1, 4), (0, 1)])
             o = {"op": op, "dim": dim, "given_q": S.pick(GIVEN_Q if dim == 1 else [0.05, 0.3, 0.5, 0.8, 0.95]), "seed": S.pick([None, S.sub("cs", k) % 100000])}
+            if dim == 0 and S.chance(0.4):
+                # short periods: the conditional law of Hs given Tz then sits close to zero
+                o["given_literal"] = S.pick([1.0, 1.5, 2.0, 2.5])
             if op == "cond_sample":
                 o["n"] = S.pick([20000, 100000])
                 if dim == 1 and S.chance(0.3):
